@@ -32,3 +32,16 @@ OBLIGATIONS = OBLIGATIONS + [dict(id='C11.merge', harness='c11_merge.cc', entry=
     tus=_MERGE_TUS, native=False, allow_throw=True, cflags=['-DRAPIDJSON_48BITPOINTER_OPTIMIZATION=0'], max_steps=4000000, fork_select=False,
     stubs=['the JSON document is built by the harness through the rapidjson API (no text parsing, no schema validation)', 'rapidjson compiled with RAPIDJSON_48BITPOINTER_OPTIMIZATION=0 for the symbolic run'],
     assumes=['coordinates non-zero (approx(0,0) is the known finding of C11.same)', 'distinct points are well separated'], outside=['parsing of the file, schema validation', 'coordinates that are approx-equal without being equal'])]
+# global depth guards derived by parse_entries from the depth tables (all area-family model classes that own depth surfaces + the three area features; harness generated from the tree)
+def _guards():
+    import guard_gen
+    path, ms = guard_gen.generate()
+    n = len(ms) + 3
+    tus = [path] + T1[1:] + ['objects/surface', 'kd_tree', 'features/feature_utilities', 'features/continental_plate', 'features/oceanic_plate', 'features/mantle_layer'] + sorted(set(m['tu'] for m in ms)) \
+          + ['features/%s_models/%s/interface' % (f, k) for f in ('continental_plate', 'oceanic_plate', 'mantle_layer') for k in ('temperature', 'composition', 'grains', 'velocity')]
+    return dict(id='C11.guard', harness=path, entry='h_guard', mode='real', cases=[(i,) for i in range(n)], expect=['the global min depth guard does not exceed any nodal value of the min depth table', 'the global max depth guard is not below any nodal value of the max depth table', 'checked', 'end'],
+        bounds='the real parse_entries() of %d area-family model classes with depth surfaces (%s) and of ContinentalPlate / OceanicPlate / MantleLayer; table values and surface extents symbolic' % (len(ms), ', '.join('%s/%s/%s' % (m['family'], m['kind'], m['cls']) for m in ms)),
+        tus=tus, native=False, allow_throw=True, fork_select=False,
+        stubs=['Parameters API stub (every entry an arbitrary value of its type)', 'Objects::Surface(values at points) replaced by an interval [value - E1, value + E2] around the delivered table value (the triangulation itself is C11.same/affine/node_bound)', 'get_coordinates, add_vector_unique, get_unique_pointers stubbed (no sub-models)'],
+        assumes=['E1, E2 >= 0'], outside=['what the query does with the guards (C04.guard / C02.frame / C05)'])
+OBLIGATIONS = OBLIGATIONS + [_guards()]
